@@ -185,6 +185,17 @@ func (l *simLogger) note(level string, params []interface{}) {
 		if strings.Contains(msg, "Removing Stale Companion") {
 			l.s.stat("log:Removing Stale Companion")
 		}
+		// the receiver's in-memory record of delivered files: aged out / re-read from the log
+		if strings.HasPrefix(msg, "(") {
+			for _, m := range []struct {
+				key string
+				out bool
+			}{{") Removed from cache: ", true}, {") Cached from log: ", false}} {
+				if i := strings.Index(msg, m.key); i > 0 {
+					l.s.noteCacheAged(strings.TrimSpace(msg[i+len(m.key):]), m.out)
+				}
+			}
+		}
 		return
 	}
 	if strings.Contains(msg, "Stage recovery complete") && len(params) > 0 {
